@@ -74,6 +74,9 @@ struct Inner {
     replay: Option<Vec<u16>>,
     replay_pos: usize,
     epoch: u64,
+    /// Rounds in which every thread was found blocked and all were given
+    /// another try (a lock release is not an event the scheduler sees).
+    futile: usize,
     waiting_writers: BTreeMap<String, BTreeSet<usize>>,
     abort: bool,
     step_limit: u64,
@@ -259,6 +262,7 @@ pub fn switch_point(_site: &'static str) {
     }
     inner.report.steps += 1;
     inner.epoch += 1;
+    inner.futile = 0;
     inner.last_progress = Instant::now();
     inner.threads[me].state = TState::Runnable;
     if inner.report.steps > inner.step_limit {
@@ -318,6 +322,9 @@ pub fn lock_blocked(lock: &str, write: bool) {
     }
     inner.report.blocked_events += 1;
     inner.report.lock_names.insert(normalise_lock(lock));
+    if std::env::var_os("VERIF_DEBUG_LOCKS").is_some() {
+        eprintln!("lock: thread {me} BLOCKED on {lock} write={write} epoch {}", inner.epoch);
+    }
     if write {
         inner.waiting_writers.entry(lock.to_string()).or_default().insert(me);
     }
@@ -325,7 +332,17 @@ pub fn lock_blocked(lock: &str, write: bool) {
     inner.threads[me].state = TState::Blocked {
         lock: lock.to_string(), write, tried_epoch: epoch
     };
-    let next = inner.choose(None);
+    let mut next = inner.choose(None);
+    if next.is_none() && inner.futile <= inner.threads.len() {
+        // Everybody is blocked as far as the scheduler knows - but a
+        // thread may have *released* a lock since the others last tried
+        // (a release is not reported): give everybody another try. Only
+        // when a whole round of retries ends here again without anyone
+        // getting a lock or reaching a switch point is it a deadlock.
+        inner.futile += 1;
+        inner.epoch += 1;
+        next = inner.choose(None);
+    }
     match next {
         None => {
             // Nobody can make progress: deadlock.
@@ -349,6 +366,10 @@ pub fn lock_event(lock: &str, what: &'static str) {
     let Some(inner) = guard.as_mut() else { return };
     inner.threads[me].state = TState::Runnable;
     inner.epoch += 1;
+    inner.futile = 0;
+    if std::env::var_os("VERIF_DEBUG_LOCKS").is_some() {
+        eprintln!("lock: thread {me} GOT {lock} ({what}) epoch {}", inner.epoch);
+    }
     if what == "write" {
         if let Some(set) = inner.waiting_writers.get_mut(lock) {
             set.remove(&me);
@@ -420,6 +441,7 @@ pub fn run_threads(
             replay: cfg.replay,
             replay_pos: 0,
             epoch: 1,
+            futile: 0,
             waiting_writers: BTreeMap::new(),
             abort: false,
             step_limit: cfg.step_limit,
